@@ -147,10 +147,21 @@ class Gen:
             ln = self.emit(ind, f'{name}: {typ} = {self.val(typ)}')
         elif r < .68:
             ln = self.emit(ind, f'{name}: {typ}')
-        elif r < .85 and not in_class:
+        elif r < .76 and not in_class:
             self.emit(ind, f'{name} = NS()')
             ln = self.emit(ind, f'{name}.attr: {typ} = {self.val(typ)}')
             self.features.add('attr-target')
+        elif r < .85 and not in_class:
+            # attribute of something that is not a bare name: a.b.attr, xs[0].attr
+            if self.rng.random() < .5:
+                self.emit(ind, f'{name} = NS()')
+                self.emit(ind, f'{name}.sub = NS()')
+                ln = self.emit(ind, f'{name}.sub.attr: {typ} = {self.val(typ)}')
+            else:
+                self.emit(ind, f'{name} = NS()')
+                self.emit(ind, f'{name}.items = [NS(), NS()]')
+                ln = self.emit(ind, f'{name}.items[1].attr: {typ} = {self.val(typ)}')
+            self.features.add('attr-target-of-non-name-owner')
         elif not in_class:
             self.emit(ind, f'{name} = {{}}')
             ln = self.emit(ind, f"{name}['k']: {typ} = {self.val(typ)}")
@@ -213,6 +224,22 @@ class Gen:
         self.emit(ind, f"{'async ' if is_async else ''}def {name}({', '.join(params)}){ret}:")
         if self.rng.random() < .3:
             self.emit(ind + 1, "'''doc.'''")
+        if ind == 0 and depth == 0 and not in_class and self.rng.random() < .2:
+            # a beforelisted decorator bound INSIDE this function and used on functions nested one and two levels deeper
+            # (every nested scope sees the names of the scopes around it)
+            nm = self.tag('napp')
+            self.emit(ind + 1, 'from celery import Celery')
+            self.emit(ind + 1, f'{nm} = Celery()')
+            self.hostile.append((f'{nm}.task', True))
+            self.emit(ind + 1, f'@{nm}.task')
+            self.emit(ind + 1, f'def {self.tag("nf")}(a0: int) -> int:')
+            if self.rng.random() < .6:
+                self.emit(ind + 2, f'@{nm}.task' + self.rng.choice(('', "(name='n')")))
+                self.emit(ind + 2, f'def {self.tag("nf")}(a0: str) -> str:')
+                self.emit(ind + 3, f"return {self.val('str')}")
+            self.emit(ind + 2, f"return {self.val('int')}")
+            self.features.add('decorator-hostile')
+            self.features.add('decorator-hostile-bound-in-function')
         self.body(ind + 1, depth + 1, n=self.rng.choice((1, 2, 3)), in_func=True)
         self.emit(ind + 1, f"return {self.val('int')}")
         self.features.add('async-function' if is_async else 'function')
